@@ -98,6 +98,8 @@ def check_query(run, i, ev, why):
 
 
 def on_query(run, i, ev):
+    run.last_query[i] = (ev[2], ev[3])
+    run.changes_since_query[i] = 0
     check_query(run, i, ev, run.last_kind.get(i, "start"))
     # ask again unchanged (cache hit path) and with a changed threshold
     check_query(run, i, ev, "repeat")
@@ -105,7 +107,27 @@ def on_query(run, i, ev):
 
 
 def hook(run, i, ev):
+    if ev[0] == "untouched-sketch-after":
+        return
     run.last_kind[i] = "merge" if ev[0] == "merge" else ("load" if ev[0] == "saveload" else "add")
+    lq = run.last_query.get(i)
+    run.changes_since_query[i] = run.changes_since_query.get(i, 0) + 1
+    if lq is not None and run.changes_since_query[i] % 3 == 1:
+        # the sketch changed since its last query and is saved WITHOUT being asked again: the loaded copy must answer the
+        # earlier question from the current contents (a persisted candidate set would be stale here)
+        mon = run.mon
+        s = run.real[i]
+        k, t = lq
+        fresh = state.save_load(s, "hh", False, False)
+        res = fresh.query(k, t)
+        eff = int(float(fresh.phi) * int(fresh.n_added())) if t is None else int(t)
+        counts = [int(c) for _, c in res]
+        ok = all(int(c) == int(fresh[bytes(a)]) and int(c) >= eff for a, c in res) and counts == sorted(counts, reverse=True)
+        full = {bytes(a) for a, _ in fresh.query(10**9, t)}
+        missing = [hx(key) for key in run.ghost[i] if int(fresh[key]) >= max(eff, 1) and key not in full]
+        mon.check(ok and not missing, "copy-loaded-after-an-unqueried-change-answers-from-current-contents", k=k, threshold=t, answer=H.hh_pairs(res)[:8],
+                  missing=missing[:5], cfg=run.cfg)
+        mon.count("loads_after_unqueried_change")
 
 
 def run_case(case, ctx, mon):
@@ -113,6 +135,8 @@ def run_case(case, ctx, mon):
         return run_midscan(case, ctx, mon)
     r = H.Run(case, mon, hook, on_query)
     r.last_kind = {}
+    r.last_query = {}
+    r.changes_since_query = {}
     r.saw_hit = r.saw_miss = False
     r.go()
     if case.get("boundary"):
